@@ -68,6 +68,7 @@ class History:
         self.evals = 0
         self.observations = 0
         self.violations = []
+        self.tolerant = False       # the caller mutates the dict it handed over (statement silent on snapshots)
 
     def classify(self, raw):
         """-> (version or None, problem sig or None, detail)"""
@@ -101,6 +102,8 @@ class History:
                 self._viol("C15:target_vanished", {"where": where})
             return
         v, sig, detail = self.classify(raw)
+        if sig and self.tolerant and not detail.get("error"):
+            sig = None              # only "is a complete YAML document" is judged for such snapshots
         if sig:
             detail["where"] = where
             self._viol(sig, detail)
@@ -150,6 +153,9 @@ class Engine:
         self.events = []
         # --- fresh FileManager state for every case (class-level globals survive between cases)
         fresh_process_state(fm_mod, yi_mod)
+        # production default; mpf.tests.MpfTestCase (imported by reboot-mode cases of the same worker) turns it on
+        self._old_cache = yi_mod.YamlInterface.cache
+        yi_mod.YamlInterface.cache = False
         fm_mod.FileManager.init()
         # --- shims (virtual time) and delay points
         mods = [dm_mod, fm_mod, yi_mod]
@@ -160,7 +166,8 @@ class Engine:
             import ruamel.yaml.serializer as r_ser
             import ruamel.yaml.representer as r_rep
             import ruamel.yaml.emitter as r_emit
-            deep_mods = [r_main, r_ser, r_rep, r_emit]
+            import copy as copy_mod     # deepcopy of the handed dict: the caller may mutate it meanwhile
+            deep_mods = [r_main, r_ser, r_rep, r_emit, copy_mod]
         self.n_codes = self.sched.install_monitoring(mods, deep_mods)
         self._swapped = swap_real_locks(self.sched, mods)
         self._wrap()
@@ -293,9 +300,12 @@ class Engine:
             for h in self.hist:
                 if target is None or h.path == target:
                     t = self._temp_of(h.path)
+                    if os.path.lexists(t):
+                        # a write of this file is in flight (its temp file is open) or left a partial temp file:
+                        # swapping the temp file for a directory now could get the DIRECTORY renamed onto the
+                        # target, a state no I/O error produces.  Block only paths that do not exist yet.
+                        continue
                     try:
-                        if os.path.isfile(t):
-                            os.remove(t)
                         os.mkdir(t)
                         self.fault["dirs"].append(t)
                     except OSError:
@@ -332,6 +342,8 @@ class Engine:
         mgr = self.managers[m]
         if alias and isinstance(mgr.data, dict) and self.last_saved.get(m) is not None:
             data = mgr.data               # the caller keeps mutating the dict it handed over (auditor, credits)
+            if any(r.state not in ("done",) and r.blocked_in == "delay" for r in self.sched.threads):
+                self.hist[m].tolerant = True      # a writer is paused mid-statement: it may be copying this dict
             data.clear()
             data.update(body)
         else:
@@ -395,4 +407,5 @@ class Engine:
                 setattr(owner, name, real)
             self.sched.teardown()
             fresh_process_state(self.fm_mod, self.yi_mod)
+            self.yi_mod.YamlInterface.cache = self._old_cache
 
